@@ -58,6 +58,11 @@ func TextConsumer() Consumer {
 				data, data, "can be resolved by supporting TextUnmarshaler interface")
 		}
 
+		// a nil pointer destination is refused before any method is called on it
+		if v := reflect.ValueOf(data); v.Kind() == reflect.Ptr && v.IsNil() {
+			return errors.New("nil pointer destination for TextConsumer")
+		}
+
 		if tu, ok := data.(encoding.TextUnmarshaler); ok {
 			err := tu.UnmarshalText(b)
 			if err != nil {
